@@ -31,6 +31,12 @@ def grammar_mutants(f):
     for v in (str(true), "0" + ck[3:], "%02d" % true, " %d" % true, "%d " % true):
         if v != ck[3:]:
             out.append(("cksum_form=" + v, rebuild(toks[:-2] + ["10=" + v, ""])))
+    # numerals far beyond any machine word (Python refuses int() of more than 4300 digits)
+    for nd in (10, 20, 310, 4300, 4301, 6000):
+        out.append(("bodylen_digits%d" % nd, rebuild([toks[0], "9=" + "1" * nd] + toks[2:])))
+        out.append(("tag_digits%d" % nd, rebuild(toks[:3] + ["5" * nd + "=1"] + toks[3:])))
+        out.append(("cksum_digits%d" % nd, rebuild(toks[:-2] + ["10=" + "0" * (nd - 3) + ck[3:], ""])))
+        out.append(("seq_digits%d" % nd, rebuild([("34=" + "7" * nd) if t.startswith("34=") else t for t in toks])))
     out.append(("tag=ab", rebuild(toks[:3] + ["ab=1"] + toks[3:])))
     out.append(("tag=1.0", rebuild(toks[:3] + ["1.0=1"] + toks[3:])))
     out.append(("noeq", rebuild(toks[:3] + ["58"] + toks[3:])))
